@@ -138,3 +138,23 @@ finding("C10-joystick-state-declared-twice", ["C10", "C14"],
         {"C10": [C10CASE("10 ZN=JOYSTK(0)", [])],
          "C14": [SRC("10 A=JOYSTK(0)")]},
         switch="no_joystk", pinned_by="tests/coco_tests/b09/test_b09.py::TestB09::test_joystk")
+
+finding("C14-hprint-number-through-numeric-temporary", ["C14"],
+        "HPRINT of a numeric item passes the numeric temporary tmp_1 as the string result of ecb_str and as the string parameter of ecb_hprint ('run ecb_str(A, tmp_1) \\ run ecb_hprint(1.0, 2.0, tmp_1, display)')",
+        {"C14": [SRC("10 HPRINT(1,2),A")]},
+        switch="hprint_string_only", pinned_by="tests/coco_tests/b09/test_b09.py::TestB09::test_hprint_num")
+
+def C13CASE(source, procname="prog", size=32):
+    return {"source": source, "procname": procname, "size": size}
+finding("C13-odd-quote-comment-blocks-placeholders", ["C13"],
+        "a comment or partial string with an odd number of quotes in the user's program left every STRING<<>> placeholder of the bundled library unreplaced",
+        {"C13": [C13CASE('10 HDRAW"":REM procedure ecb_cls "'), C13CASE('10 PLAY"":REM "', size=80)]},
+        status="fixed", commit="e1a8e18")
+finding("C13-run-in-comment-taken-for-a-call", ["C13"],
+        "'RUN name' inside a REM / ' comment of the user's program is taken for a call: unreachable library procedures are bundled",
+        {"C13": [C13CASE("10 CLS:REM RUN ecb_hdraw")]},
+        switch="no_run_in_comments")
+finding("C13-program-named-like-a-library-procedure", ["C13"],
+        "a program whose procedure name equals the name of a bundled library procedure replaces that procedure in the bundle (the library's own body is lost)",
+        {"C13": [C13CASE("10 CLS", procname="_ecb_cursor_color")]},
+        switch="procname_not_library_name")
